@@ -1,5 +1,6 @@
 mod util;
 mod s_atoms;
+mod s_terms;
 
 fn main() {
     let args: Vec<String> = std::env::args().collect();
@@ -23,6 +24,7 @@ fn main() {
     let mut out = util::Out::new();
     match args[1].as_str() {
         "atoms" => s_atoms::run(&mut out, seed, &tier),
+        "terms" => s_terms::run(&mut out, seed, &tier),
         other => { eprintln!("unknown stream {}", other); std::process::exit(2); }
     }
     let _ = rest;
